@@ -461,6 +461,43 @@ int main(int argc, char** argv){ vr::parse(argc, argv);
   NOT_REPRODUCED("planar iterator subscripting agrees with view(x,y)"); }
 '''
 
+# ---------------------------------------------------------------------------------------------------------------------------------------
+# image_view::at(point_t) and at(x, y): the 1-D iterator of pixel (x, y) is begin() advanced by y*width + x
+X_AT = [X('at_point', 'image_view.hpp', r'auto at\(point_t const& p\) const -> iterator\s*\{.*?return (.*?);', kind='expr',
+          rules=[('R11.begin', r'\bbegin\(\)', 'BEGIN_INDEX', True), ('R11.w', r'\bwidth\(\)', 'self->w', True)]),
+        X('at_xy', 'image_view.hpp', r'auto at\(x_coord_t x, y_coord_t y\) const -> iterator\s*\{.*?return (.*?);', kind='expr',
+          rules=[('R11.begin', r'\bbegin\(\)', 'BEGIN_INDEX', True), ('R11.w', r'\bwidth\(\)', 'self->w', True)])]
+AT_C = r'''
+typedef struct { ptrdiff_t w, h; } gview_t;
+#define BEGIN_INDEX ((ptrdiff_t)0)          /* begin() is the iterator with 1-D index 0; iterator + n has index n (unit it2d: advance / distance_to) */
+ptrdiff_t at_point(const gview_t* self, point_t p) { return @@at_point@@; }
+ptrdiff_t at_xy(const gview_t* self, ptrdiff_t x, ptrdiff_t y) { return @@at_xy@@; }
+#ifndef VERIF_NATIVE
+void hz_at(void){ gview_t v; point_t p; __CPROVER_assume(0 < v.w && v.w <= ((ptrdiff_t)1 << 20) && 0 < v.h && v.h <= ((ptrdiff_t)1 << 20) && 0 <= p.x && p.x < v.w && 0 <= p.y && p.y < v.h);
+  __CPROVER_assert(at_point(&v, p) == p.y * v.w + p.x, "at(point): the iterator of pixel (x,y) is begin() + y*width + x");
+  __CPROVER_assert(at_xy(&v, p.x, p.y) == p.y * v.w + p.x, "at(x, y): the iterator of pixel (x,y) is begin() + y*width + x");
+  __CPROVER_assert(0, "VACUITY"); }
+#endif
+'''
+REPLAY_AT = r'''
+#include <boost/gil.hpp>
+#include <vector>
+#include "vreplay.hpp"
+using namespace boost::gil;
+template <typename V> static int chk(V const& v, const char* what) { for (long y = 0; y < v.height(); y++) for (long x = 0; x < v.width(); x++) { long k = y * v.width() + x;
+    auto a = v.at(typename V::point_t(x, y)); auto b = v.at(x, y);
+    if (a - v.begin() != k || b - v.begin() != k) REPRODUCED("%s %tdx%td: at(%ld,%ld) - begin() = %td / %td, expected %ld", what, v.width(), v.height(), x, y, a - v.begin(), b - v.begin(), k);
+    if (!(a == v.begin() + k) || !(b == v.begin() + k)) REPRODUCED("%s: at(%ld,%ld) != begin() + %ld", what, x, y, k);
+    for (long n = -k; n < v.width() * v.height() - k; n++) if (&(*(a + n))[0] != &v.begin()[k + n][0]) REPRODUCED("%s: at(point(%ld,%ld)) + %ld is not begin()[%ld]", what, x, y, n, k + n); }
+  return 0; }
+int main(int argc, char** argv){ vr::parse(argc, argv); std::vector<unsigned char> buf(8 * 3); gray8_view_t p = interleaved_view(5, 3, (gray8_pixel_t*)buf.data(), 8); gray8_image_t img(5, 3);
+  if (chk(view(img), "contiguous") || chk(p, "padded rows") || chk(rotated180_view(view(img)), "rotated180") || chk(subsampled_view(view(img), 2, 1), "subsampled")) return 1;
+  NOT_REPRODUCED("at(point) / at(x,y) agree with begin() + y*width + x and with every further move"); }
+'''
+
+UNITS.append(Unit('view_at', 'C03', AT_C, extracts=X_AT, replay=REPLAY_AT, checks=[Check('at', 'hz_at', engine='Z', timeout=300)],
+                  preconditions=['view dimensions 1..2^20'], assumed=['iterator + n is the iterator with 1-D index n more (unit it2d)']))
+
 for _n, _t in (('u8', 'std::uint8_t'), ('u16', 'std::uint16_t'), ('f32', 'float')):
     UNITS.append(Unit('planar_it.' + _n, 'C03', PLANAR_C, extracts=X_PLANAR, replay=REPLAY_PLANAR, probe_includes=['boost/gil.hpp'], probe='P_TYPE("CH_T", CH);',
                       insts=[(_n, 'quick', {'T_CH': _t})], checks=[Check('planar', 'hz_planar', engine='Z', timeout=300, inputs=('d',))],
